@@ -5,6 +5,7 @@ package main
 import (
 	"bytes"
 	"fmt"
+	"os"
 	"strings"
 
 	"github.com/scionproto/scion/pkg/slayers/path"
@@ -150,6 +151,13 @@ type runner struct {
 
 func (g *runner) do(op string) (string, bool) {
 	ans := lib.Try(func() string { return exec(strings.Fields(op)) })
+	if strings.HasPrefix(ans, "sandbox sentinel-unanswered") && os.Getenv("C13_NETNS") == "1" {
+		// private loopback, listener process alive, yet a well-formed request from the same
+		// socket stays unanswered after restarts: not a sandbox matter
+		g.c.Fail("C13:sentinel-unanswered", "listener alive but a well-formed NTP request sent after this datagram is not answered",
+			[]string{op}, map[string]any{"answer": ans})
+		sandbox = "listener silent"
+	}
 	if strings.HasPrefix(ans, "sandbox") {
 		g.sandboxN++
 		if g.sandboxN == 1 {
@@ -234,6 +242,9 @@ func (g *runner) run(p *pkt, tag string, badmac bool) string {
 		case verified && o.replyMAC != "ok":
 			fail("C13:reply-auth", "reply to a verified request carries no authenticator the client verifies",
 				map[string]any{"answer": ans, "reply_mac": o.replyMAC})
+		case verified && o.replyMeta != fmt.Sprintf("%d:0", spiServer):
+			fail("C13:reply-auth-spi", "reply authenticator does not carry the server SPI / expected algorithm (the client rejects it)",
+				map[string]any{"answer": ans, "reply_meta": o.replyMeta})
 		case !verified && o.replyMAC != "none":
 			fail("C13:reply-auth-unverified", "reply to an unverified request carries an authenticator",
 				map[string]any{"answer": ans, "reply_mac": o.replyMAC})
@@ -271,13 +282,13 @@ func beU32(b []byte) uint32 {
 func gen(c *lib.Ctx) {
 	g := &runner{c: c}
 	genAuthFuncs(c)
-	genServe(g, c.Rand.Fork("serve"), c.Scale(500, 6000))
-	genMutations(g, c.Rand.Fork("mut"), c.Scale(6, 60))
-	genPorts(g, c.Rand.Fork("ports"), c.Scale(250, 3000))
-	genSCMP(g, c.Rand.Fork("scmp"), c.Scale(200, 2500))
-	genMalformed(g, c.Rand.Fork("malformed"), c.Scale(25, 150))
-	genNoMock(g, c.Rand.Fork("nomock"), c.Scale(60, 600))
-	genDispatcher(g, c.Rand.Fork("disp"), c.Scale(120, 1200))
+	genServe(g, c.Rand.Fork("serve"), c.Scale(1500, 15000))
+	genMutations(g, c.Rand.Fork("mut"), c.Scale(15, 150))
+	genPorts(g, c.Rand.Fork("ports"), c.Scale(800, 7000))
+	genSCMP(g, c.Rand.Fork("scmp"), c.Scale(500, 5000))
+	genMalformed(g, c.Rand.Fork("malformed"), c.Scale(80, 400))
+	genNoMock(g, c.Rand.Fork("nomock"), c.Scale(150, 1500))
+	genDispatcher(g, c.Rand.Fork("disp"), c.Scale(300, 3000))
 	killChildren()
 }
 
